@@ -101,12 +101,15 @@ def c11(tier, seed):
     # several changes inside ONE partial invalidation run: a three-change page whose newest change is the write, the
     # middle one a change of the same object#relation for another user (nb1=1; they share a marker key), the oldest
     # unrelated (and, where the solver puts it outside the TTL window, the run is a partial one)
-    jobs.append(J(CMDS, "VerifK11IteratorCache", impl=0, api=2, wild=0, page=3, w=0, vocab=2, overflow=0, nb1=1, nb2=0, **big))
+    jobs.append(J(CMDS, "VerifK11IteratorCache", impl=0, api=2, wild=0, page=3, w=0, vocab=2, overflow=0, nb1=1, nb2=0,
+                  **(dict(prevcl=0) if q else {}), **big))
     # markers of different runs: an earlier run left the marker of ANOTHER key of the same query (user u:1 of the filter
     # [u:1, u:*]) in the cache, older than the entry; the write concerns u:* - every marker of the query must be consulted
     # (two-change page, write newest: where the older change lies outside the TTL window the run is a partial one and
     # only the entity markers - not the store-wide marker - condemn the entry)
-    jobs.append(J(CMDS, "VerifK11IteratorCache", impl=0, api=2, wild=1, page=2, w=0, overflow=0, prevmark=1, **big))
+    # quick: the older change is an unrelated tuple and no ChangelogCacheEntry of an earlier run is left (prevcl=0)
+    jobs.append(J(CMDS, "VerifK11IteratorCache", impl=0, api=2, wild=1, page=2, w=0, overflow=0, prevmark=1,
+                  **(dict(vocab=2, nb1=0, prevcl=0) if q else {}), **big))
     if not q:
         jobs.append(J(CMDS, "VerifK11IteratorCache", impl=0, api=2, wild=0, page=2, w=0, overflow=0, vocab=2, **big))
         jobs.append(J(CMDS, "VerifK11IteratorCache", impl=0, api=2, wild=1, page=1, prevmark=1, **big))
